@@ -27,12 +27,9 @@ def find_any(data: bytes | memoryview, end_marker: frozenset[int],
 
 
 def get_raw(view: memoryview, *lines: _Lines) -> memoryview:
-    try:
-        start = lines[0][0][0]
-    except IndexError:
-        start = 0
-    try:
-        end = lines[-1][-1][2]
-    except IndexError:
-        end = -1
+    non_empty = [group for group in lines if len(group) > 0]
+    if not non_empty:
+        return view[0:0]
+    start = non_empty[0][0][0]
+    end = non_empty[-1][-1][2]
     return view[start:end]
